@@ -127,6 +127,9 @@ func judge(r *engine.Rec, part, src string, injected int) string {
 	if res.LibPanic != "" {
 		r.Violation("the scanner goroutine panics: "+common.PanicClass(res.LibPanic), fmt.Sprintf("%q: %s", src, res.LibPanic), c)
 	}
+	if res.LiveAtEnd > 0 && !res.Leaked && !res.ParserHung && !o.Fuel {
+		r.Violation("a goroutine started by ParseSource is still running when ParseSource has ended ("+class+")", fmt.Sprintf("%q: %d goroutines alive at that instant", src, res.LiveAtEnd), c)
+	}
 	if res.Leaked && !res.ParserHung {
 		r.Violation("a scanner goroutine is left blocked after ParseSource ended ("+class+")", fmt.Sprintf("%q: scanner parked in %s", src, res.LeakWhere), c)
 	}
@@ -396,8 +399,30 @@ func ladder(r *engine.Rec) {
 			judge(r, "nesting-unclosed", bad, 0)
 		}
 	}
-	r.States += int64(len(depths))
-	r.Distinct += int64(len(depths))
+	// sources around the capacity of the token queue (16) and its multiples: n tokens of one rune each, with and
+	// without separators, closed and unclosed (the scanner emits one more token, EOF, than the source has)
+	for n := 1; n <= 70; n++ {
+		if r.TimeUp() {
+			r.Incomplete("time budget")
+			break
+		}
+		digits := ""
+		for i := 0; i < n; i++ {
+			if i > 0 {
+				digits += ","
+			}
+			digits += fmt.Sprint(i % 10)
+		}
+		for _, src := range []string{
+			strings.Repeat("[", n), strings.Repeat("]", n), strings.Repeat("\n", n), strings.Repeat(":", n),
+			("[" + digits)[:n], ("[" + digits + "](List)")[:min(n, len(digits)+8)], "[" + digits + "](List)", "[" + digits + "](Queue)",
+			strings.Repeat("[", n/2) + strings.Repeat("]", n-n/2),
+		} {
+			judge(r, "token-count-boundary", src, 0)
+		}
+	}
+	r.States += int64(len(depths) + 70)
+	r.Distinct += int64(len(depths) + 70)
 	r.Transitions += r.Evals
 	r.Sample(inCase{"nesting", "[[[1](List)](List)](List)"})
 }
